@@ -519,8 +519,8 @@ def calculate_structure_function(phase, nbOfPoint=None, step=None):
             ndarray, float: values for the structure function of the data.
     '''
     # integer data (counts, quantised commands) would wrap around in the
-    # differences and squares below
-    if phase.dtype.kind in "iub":
+    # differences and squares below, half precision overflows in the squares
+    if phase.dtype.kind in "iub" or phase.dtype.itemsize < 4:
         phase = phase.astype(float)
     # the lags are shifts along the first dimension
     if nbOfPoint is None:
